@@ -35,6 +35,7 @@ def handle (line : String) : String :=
     | some b => showEvents (serve action (b.length + 1) b)
     | none => "bad-op"
   | ["ping"] => "replies 2"          -- a valid write request is always answered
+  | ["rt2", _] => "rt ok"
   | ["rt", _] => "rt ok"             -- message round trips: judged on the Go side, required by the model
   | _ => "bad-op"
 
